@@ -890,6 +890,15 @@ func (ro *RedisOutput) checkpoint(ctx context.Context, runIds []string) (cpi *ch
 func (ro *RedisOutput) sendCmdsBatch(replayWait usync.WaitCloser, conn client.Redis, runId string,
 	sendBuf chan cmdExecution, transactionMode bool, isPipeline bool) error {
 
+	// A cluster target has no real MULTI/EXEC (the cluster batcher drops multi/exec): the checkpoint
+	// of a "transactional" batch may only be written after every reply of that batch was checked,
+	// otherwise a command that a node redirected (MOVED/ASK) is covered by the stored position and
+	// never replayed. That needs blocking sends.
+	clusterTxn := transactionMode && ro.cfg.Redis.IsCluster()
+	if clusterTxn {
+		isPipeline = false
+	}
+
 	var queuedByteSize uint64
 	var txnStatus txnStatus // transaction status
 	var needFlush bool
@@ -996,7 +1005,9 @@ func (ro *RedisOutput) sendCmdsBatch(replayWait usync.WaitCloser, conn client.Re
 			}
 		}
 
-		if shouldUpdateCP {
+		// cluster "transaction": send the checkpoint after the batch succeeded, see above
+		deferredCP := clusterTxn && shouldInTransaction && shouldUpdateCP && ro.cfg.EnableResumeFromBreakPoint
+		if shouldUpdateCP && !deferredCP {
 			if ro.cfg.EnableResumeFromBreakPoint {
 				// an offset without its run id is not a usable checkpoint (the next start ignores it and
 				// falls back to a full sync), and which database this batch ends in cannot be told from
@@ -1024,6 +1035,10 @@ func (ro *RedisOutput) sendCmdsBatch(replayWait usync.WaitCloser, conn client.Re
 			_, err = batcher.Exec()
 		}
 
+		if err == nil && deferredCP {
+			_, err = conn.Do("hset", checkpointKv.Key, checkpointKv.RunIdKey(), runId, checkpointKv.VersionKey(), config.Version,
+				checkpointKv.OffsetKey(), lastOffset)
+		}
 		if err != nil {
 			ro.logger.Errorf("exec error %v", err)
 			failCounter.Inc(ro.cfg.InputName)
